@@ -309,7 +309,10 @@ class ASTNode(DataClassSerializeMixin):
         # yet and thus will have a different ID. We need to force
         # the ID to be the same as the serialized one and replace
         # the node in the registry
-        if new_obj.id != value["id"]:
+        # (unless a live node has taken that ID while the subtree was being
+        # re-created, e.g. one constructed by a user's __post_init__: it must
+        # not be evicted, the new node keeps its own unique ID then)
+        if new_obj.id != value["id"] and value["id"] not in NODE_REGISTRY:
             NODE_REGISTRY.pop(new_obj.id)
             object.__setattr__(new_obj, "id", value["id"])
             NODE_REGISTRY[value["id"]] = new_obj
